@@ -611,7 +611,8 @@ static int restore_interior_string (char **val, svalue_t * sv) {
 
 static int parse_numeric (char **cpp, char c, svalue_t * dest) {
   char *cp = *cpp;
-  int res, neg;
+  uint64_t res;	/* LPC integers are 64 bits wide; unsigned so that -2^63 can be accumulated */
+  int neg;
 
   if (c == '-')
     {
@@ -645,7 +646,7 @@ static int parse_numeric (char **cpp, char c, svalue_t * dest) {
         }
       while ((c = *cp++) && isdigit (c));
 
-      f1 += res;
+      f1 += (double)res;
       if (c == 'e')
         {
           int expo = 0;
@@ -689,7 +690,7 @@ static int parse_numeric (char **cpp, char c, svalue_t * dest) {
               expo *= 10;
               expo += (c - '0');
             }
-          f1 = res * pow (10.0, expo);
+          f1 = (double)res * pow (10.0, expo);
         }
       else if (c == '-')
         {
@@ -698,7 +699,7 @@ static int parse_numeric (char **cpp, char c, svalue_t * dest) {
               expo *= 10;
               expo += (c - '0');
             }
-          f1 = res * pow (10.0, -expo);
+          f1 = (double)res * pow (10.0, -expo);
         }
       else
         return 0;
@@ -711,7 +712,7 @@ static int parse_numeric (char **cpp, char c, svalue_t * dest) {
   else
     {
       dest->type = T_NUMBER;
-      dest->u.number = (neg ? -res : res);
+      dest->u.number = (int64_t)(neg ? (uint64_t)0 - res : res);
       *cpp = cp;
       return 1;
     }
